@@ -84,7 +84,7 @@ def check(ctx, rule, mod):
             uses = []
             if w is None and R is not None:
                 # the statements that put the range in the place of the list (assignment to the list / return / use as argument)
-                uses = [u for u in walk(f) if isinstance(u, ast.Name) and u.id == R and isinstance(u.ctx, ast.Load) and getattr(u, 'lineno', 0) > st.lineno]
+                uses = [u for u in walk(f) if isinstance(u, ast.Name) and u.id == R and isinstance(u.ctx, ast.Load) and not any(u is w_ for w_ in ast.walk(st))]      # (no line numbers: restored code)
                 ws = [_witness(mod, f, u, A, R, c.args[2]) for u in uses]
                 # reads inside the witness itself (list(R) in the comparison) do not replace anything
                 repl = [(u, w_) for u, w_ in zip(uses, ws) if not _inside_test(mod, u, f)]
